@@ -1,6 +1,6 @@
 PROPERTY = "C09"
 LEVEL = "proof"
-LEAN_MODULES = ["CifModel.Props.C09", "CifModel.Props.C09Buf", "CifModel.Props.C09Api", "CifModel.Props.C09Store", "CifModel.Lemmas.NamesLink", "CifModel.Props.ReviewC09"]
+LEAN_MODULES = ["CifModel.Props.C09", "CifModel.Props.C09Buf", "CifModel.Props.C09Api", "CifModel.Props.C09Store", "CifModel.Lemmas.NamesLink", "CifModel.Props.ReviewC09", "CifModel.Props.ReviewRC09"]
 REQUIRED = ["CifModel.C09_idempotent", "CifModel.C09_canon_invariant", "CifModel.C09_normal_form_is_caseless_match",
             "CifModel.C09_norm_of_valid", "CifModel.C09_match_iff", "CifModel.C09_invalid_refused",
             "CifModel.C09_table_keys", "CifModel.C09_table_enumeration", "CifModel.C09_packet_names", "CifModel.C09_map_invariant",
@@ -10,7 +10,8 @@ REQUIRED = ["CifModel.C09_idempotent", "CifModel.C09_canon_invariant", "CifModel
             "CifModel.C09_normalize_buffer_refines", "CifModel.C09_unicode_normalize_buffer", "CifModel.C09_fold_case_buffer",
             "CifModel.C09_normalize_buffer_cstring", "CifModel.C09_normalize_entry_buffer_refines",
             "CifModel.C09_entry_points", "CifModel.C09_store_block_match", "CifModel.C09_table_survives_store",
-            "CifModel.C09_store_frame_match", "CifModel.C09_store_item_match"]
+            "CifModel.C09_store_frame_match", "CifModel.C09_store_item_match",
+            "CifModel.C09_table_serialisation_roundtrip", "CifModel.C09_entry_points_accept"]
 GEN = ["ErrCodes", "NamesConsts"]
 FAMILIES = ["valid", "norm"]
 TRUSTED_BASE = [
@@ -49,20 +50,36 @@ ASSUMPTIONS = [
 PARTIAL = [
     "the theorems about tables and packets are about the map of map.c at association-list level (Model/Normalize.lean `Entries`, tied by "
     "family `norm map`, which also sends every table through a managed CIF - set_value / get_value, loop packet / packet iterator - and "
-    "probes the READ-BACK table: C09_table_survives_store, from C07's serialisation round trip; a packet delivered by a packet iterator "
+    "probes the READ-BACK table; C09_table_survives_store: a table put into the store model by set_value (Store.Codec.setValueC: value -> SQL "
+    "columns incl. the serialised blob -> value) and read back by get_value is a value on which Value.table* with the C09 normaliser answer "
+    "exactly what Normalize's Entries operations answer on the stored entries (bridge between the two map models: Lemmas/NamesBridge.lean, "
+    "maps with pairwise different keys) - so C09_table_keys / _enumeration speak about the table read back; the add_packet / iterator route "
+    "is C07_stored_read_identical's ReadsBack at row level and the correspondence `norm map` op P, not restated here; a packet delivered by a packet iterator "
     "carries its NORMALISED names as spellings - modelled, no property fixes that spelling); that uthash enumerates in insertion order, and key / key_orig memory ownership, are correspondence-only "
     "(families norm, val; C16 / C19 for the heap level)",
-    "C09_entry_points instantiates the name parameter of the entry-point models of other groups (Model/Store.lean create_block / "
-    "create_frame / create_loop / set_value / add_item, Model/Value.lean table set / packet set / packet create) with the C09 models down to "
-    "buffer level and proves verdict = CIF rules and stored key = cif_normalize (NFC for table keys) of the caller's string; that the REAL "
-    "entry points make exactly that call (cif_normalize_name(code, -1, &buf, CIF_INVALID_BLOCKCODE) before anything else, etc.) is part of "
-    "those entry-point models' own tie (families `valid api`, `store`, `val`), not proved; for set_value / add_item only the verdict and "
-    "the identity with the call on the normalised record are stated here - the rows they store are C04's refinement",
+    "C09_entry_points / C09_entry_points_accept instantiate the name parameter of the entry-point models of other groups (Model/Store.lean "
+    "create_block / create_frame / create_loop / set_value / add_item, Model/Value.lean table set / packet set / packet create) with the C09 "
+    "models down to buffer level and prove verdict = CIF rules (refused as INVALID_* exactly when Spec.validName fails) and stored key = "
+    "cif_normalize (NFC for table keys) of the caller's string.  FIXED BY INSTANTIATION, not by the entry-point models (review rA, B): "
+    "WHICH normaliser and which validity test an entry point applies - `apiName U false` for block / frame codes, `apiName U true` for data "
+    "names, `itemNorm U` for packets, `tableNorm U` for table keys (Model/NamesApi.lean) - is chosen in the theorem statements; "
+    "Store.createBlock etc. take an arbitrary `Name`, Value.tableSet an arbitrary normaliser.  What ties the choice to the C: for tables "
+    "and packets the driver family `norm map` now EXECUTES the composed terms (Value.tableSet (tableNorm U), Value.packetSet / packetGet / "
+    "packetRemove / packetCreate (itemNorm U), every refusal code printed comes out of those functions) against the real "
+    "cif_value_set_item_by_key / cif_packet_set_item / ...; family `val` takes the verdict of its tset / pset from Value.tableSet / "
+    "Value.packetSet too (the normal form still travels in the request).  For the STORE entry points the composed term "
+    "`createBlock s (some (apiName U false x))` is executed by no family: family `store` feeds Name records computed in Python, `norm match` "
+    "runs createNamed / findNamed; the tie is three separate correspondences (store on those records, `norm cp` for cifNormalize, "
+    "`valid fn` / `valid api` for isValidName and the INVALID_* codes); that the real entry points call cif_normalize_name(code, -1, ...) "
+    "first is therefore observed, not proved.  For set_value / add_item only the verdict and the identity with the call on the normalised "
+    "record are stated here - the rows they store are C04's refinement",
     "found / duplicate: C09_match_iff on the list of present normal forms; C09_store_block_match / C09_store_frame_match / "
     "C09_store_item_match compose it with the store model for ONE creation followed by look-up / re-creation, from any store state whose "
     "keys are the normal forms of their spellings (invariant shown preserved by the three creating calls; the id-sequence facts the DUP "
-    "direction needs are hypotheses that C04's invariant provides); items are stated on the loop_item row test (hasItem) that "
-    "get_value / get_item_loop / the DUP check consult; set_value / add_item / remove and whole histories are property C04's",
+    "direction needs are hypotheses that C04's invariant provides); items at API level: cif_container_get_item_loop finds, "
+    "cif_loop_add_item / cif_container_create_loop report CIF_DUP_ITEMNAME under exactly the equivalent spellings (state satisfying C04's "
+    "invariant InvS) - NOT cif_container_get_value, which answers CIF_NOSUCH_ITEM for a loop without packets; set_value / remove and whole "
+    "histories are property C04's",
     "ICU itself: `Laws` and `Contract` are hypotheses (tested against ICU on all code points resp. all capacities 0 .. length+2 of "
     "seeded strings), not proved; allocation failure inside the retry loops (`while (buf)`, the unchecked malloc after an overflow) is "
     "property C17's fault-injection census, not modelled here",
